@@ -125,7 +125,7 @@ def dir_snapshot(tokens_root, backend='file'):
         tdir = os.path.basename(os.path.dirname(f))
         for oid, rs in rows.items():
             if any(TOKEN_VENDOR < typ <= TOKEN_VENDOR + 5 for _, typ, _ in rs): continue
-            out[f'{tdir}/object:{oid}'] = tuple(sorted(rs, key=repr))
+            out[f'{tdir}/object:{oid}'] = tuple(sorted(set(rs), key=repr))      # as a set: the db back-end accumulates duplicate rows (same type, same value)
     return out
 
 def _decode_objfile(b):
